@@ -1,18 +1,20 @@
 """Texts of MANIFEST.json per claimed property."""
-HOOK_COMMITS = ["e612c74 verif hook: cfg(nomt_verif)-guarded I/O event hook and rollback segment size override"]
+HOOK_COMMITS = ["e612c74 verif hook: cfg(nomt_verif)-guarded I/O event hook and rollback segment size override",
+                "41b843e verif hook: report the hash-table fsync of bitbox recovery (cfg nomt_verif)",
+                "44a4879 verif hook: verif_api exposing the free list and bitbox probing to the harness (cfg nomt_verif)"]
 NOTES = "All claimed checks use one technique: machine-checked proof in Lean 4 about a hand-written model, tied to /repo by a correspondence (differential) run of the compiled Lean model against the real code on every invocation. See DESIGN.md."
 NOT_YET = {}
 CLAIMS = {
     "C08": {
-        "text": "Kernel-checked theorems over the Lean mirror of PathProof::verify/confirm_*/verify_update: T8.1 path-proof soundness for every set, every proof object, every key (all inputs, unbounded), T8.4 root binding, T8.3 algorithmic core of update verification (…_partial: glue from verify to PathOK held by correspondence). The mirror is tied to core/src/proof/path_proof.rs by running both on an adversarial proof stream every run, and a truth oracle checks that nothing false is ever confirmed by the real verifier.",
+        "text": "Kernel-checked theorems over the Lean mirror of PathProof::verify/confirm_*/verify_update: T8.1 path-proof soundness for every set, every proof object, every key (all inputs, unbounded), T8.4 root binding, T8.3 update verification is sound and complete (an ok verdict is the root of the updated set; with the checks passed the verdict is that root). The mirror is tied to core/src/proof/path_proof.rs by running both on an adversarial proof stream every run, and a truth oracle checks that nothing false is ever confirmed by the real verifier.",
         "design_ref": "§4 C08",
-        "note": "Trusted: Lean kernel; axioms propext/Classical.choice/Quot.sound; Hasher.Sound for Blake3 (hypothesis); hand-written mirror + differential generator quality; multi-proof soundness T8.2 not yet a theorem.",
+        "note": "Trusted: Lean kernel; axioms propext/Classical.choice/Quot.sound; Hasher.Sound for Blake3 (hypothesis); hand-written mirror + differential generator quality; multi-proof soundness T8.2 and the multi-proof update (T7.4) are theorems in C07's module.",
         "technique": "Lean 4 theorem (induction on the proven path, for all proof objects) + model-vs-implementation differential on adversarial proofs",
     },
     "C18": {
         "text": "Mirrors of the verifiers with every slice/subtraction site as an explicit Outcome.panic; T18.1 proves PathProof::verify and confirm_* never reach a panic site for any input; the differential runs the real verifiers under catch_unwind on malformed objects and requires the model to predict ok/error/panic line by line.",
         "design_ref": "§4 C18",
-        "note": "Trusted: Lean kernel; mirror fidelity is what the differential checks. Multi-proof totality theorems are added as the multi-proof mirror lands.",
+        "note": "Trusted: Lean kernel; mirror fidelity is what the differential checks. T18.5 / T18.5a / T18.5b: the multi-proof update never reaches a panic site on any object verify_multi_proof accepted (for any root), given the key lengths the Rust types guarantee; a hand-made unverified object shows acceptance is necessary.",
         "technique": "Lean 4 theorem (no panic site reachable) + differential under catch_unwind on malformed inputs",
     },
     "C01": {
@@ -94,9 +96,9 @@ CLAIMS = {
         "technique": "Lean 4 theorems on the page-ownership monitor + the monitor evaluated by the Lean driver on real directory images + frontier cycles",
     },
     "C07": {
-        "text": "Lean mirrors of MultiProof::from_path_proofs, verify_multi_proof (verify_range incl. the std branch-free binary search), find_index_for / confirm_*, verify_multi_proof_update (CommonSiblings, hash_and_compact_terminal) with every panic site explicit. Kernel-checked: T7.1 every accepted path was hashed along the first depth bits of its own terminal; T7.2a-c find_index_for returns the unique covering path and confirm_* are its terminal tests; T7.3 binary search = partition point; T8.2 full multi-proof soundness under Hasher.Sound. The real functions run on honest sets and ~30 kinds of mutated objects; verdicts, inner structure, confirmations and update roots must equal the mirror line by line, the truth set, the single-path verifier and the reference root of the updated set.",
+        "text": "Lean mirrors of MultiProof::from_path_proofs, verify_multi_proof (verify_range incl. the std branch-free binary search), find_index_for / confirm_*, verify_multi_proof_update (CommonSiblings, hash_and_compact_terminal) with every panic site explicit. Kernel-checked: T7.1 every accepted path was hashed along the first depth bits of its own terminal; T7.2a-c find_index_for returns the unique covering path and confirm_* are its terminal tests; T7.3 binary search = partition point; T8.2 full multi-proof soundness under Hasher.Sound; T7.4 / T7.4a / T7.4b the multi-proof update on an accepted object never panics, equals the path-proof update on the reconstructed path proofs, any ok verdict IS the root of the updated set, and sorted in-scope write sets are never rejected; T7.5 from_path_proofs is complete on honest ascending proofs (the bundle verifies, terminals and depths preserved, every proved key in scope; no hash assumption); T7.6 prove -> bundle -> verify -> update end to end. The real functions run on honest sets and ~30 kinds of mutated objects; verdicts, inner structure, confirmations and update roots must equal the mirror line by line, the truth set, the single-path verifier and the reference root of the updated set.",
         "design_ref": "§4 C07",
-        "note": "Trusted: Lean kernel; Hasher.Sound; NOT yet theorems (held by the differential and its oracles): completeness of find_index_for and of from_path_proofs, root-correctness of the multi-proof update (T7.3 of DESIGN).",
+        "note": "Trusted: Lean kernel; Hasher.Sound; completeness of find_index_for is not a theorem (held by the differential and its oracles).",
         "technique": "Lean 4 theorems on the multi-proof mirror (alignment, unique covering path, soundness) + line-by-line differential with three independent oracles",
     },
     "C20": {
